@@ -44,10 +44,14 @@ type c18World struct {
 	stops  []func()
 	cancel context.CancelFunc
 	why    string
+	// oneChain: every request runs through all filters in order
+	oneChain bool
 }
 
-func newC18World(c *sim.Case, n int, storeMode string, timeouts [][2]int) *c18World {
+// With oneChain, all filters sit in ONE chain that every request runs through in order (selected by x-tenant: all).
+func newC18World(c *sim.Case, n int, storeMode string, timeouts [][2]int, oneChain ...bool) *c18World {
 	w := &c18World{}
+	w.oneChain = len(oneChain) > 0 && oneChain[0]
 	// a third of the configurations run as the built service binary (cmd/main.go) behind gRPC
 	binary := sim.ServiceBinary() != "" && sim.Weighted(c, "binary", 2, 1) == 1
 	if binary {
@@ -67,7 +71,7 @@ func newC18World(c *sim.Case, n int, storeMode string, timeouts [][2]int) *c18Wo
 		f.idp.Keys = []*sim.Key{f.idp.SignKey}
 		f.idp.Tag = "Zq" + f.name
 		f.store = "memory"
-		if storeMode == "redis" || storeMode == "redis-dbs" || (storeMode == "mixed" && i%2 == 1) {
+		if storeMode == "redis" || storeMode == "redis-dbs" || (storeMode == "mixed" && i%2 == 1) || (storeMode == "mixed-redis-first" && i%2 == 0) {
 			f.store = "redis"
 		}
 		if storeMode == "redis-dbs" {
@@ -87,9 +91,16 @@ func newC18World(c *sim.Case, n int, storeMode string, timeouts [][2]int) *c18Wo
 		if strings.HasPrefix(f.store, "redis-db") {
 			f.cfg.RedisSessionStoreConfig = &oidcv1.RedisConfig{ServerUri: fmt.Sprintf("redis://%s/%d", mr.Addr(), i)}
 		}
-		full.Chains = append(full.Chains, &configv1.FilterChain{Name: f.name,
-			Match:   &configv1.Match{Header: "x-tenant", Criteria: &configv1.Match_Equality{Equality: f.name}},
-			Filters: []*configv1.Filter{{Type: &configv1.Filter_Oidc{Oidc: f.cfg}}}})
+		if w.oneChain {
+			if i == 0 {
+				full.Chains = append(full.Chains, &configv1.FilterChain{Name: "all", Match: &configv1.Match{Header: "x-tenant", Criteria: &configv1.Match_Equality{Equality: "all"}}})
+			}
+			full.Chains[0].Filters = append(full.Chains[0].Filters, &configv1.Filter{Type: &configv1.Filter_Oidc{Oidc: f.cfg}})
+		} else {
+			full.Chains = append(full.Chains, &configv1.FilterChain{Name: f.name,
+				Match:   &configv1.Match{Header: "x-tenant", Criteria: &configv1.Match_Equality{Equality: f.name}},
+				Filters: []*configv1.Filter{{Type: &configv1.Filter_Oidc{Oidc: f.cfg}}}})
+		}
 		w.fs = append(w.fs, f)
 		c.Logf("filter %s: store=%s abs=%v idle=%v", f.name, f.store, f.abs, f.idle)
 	}
@@ -127,6 +138,9 @@ func (w *c18World) close() {
 
 func (w *c18World) check(f *c18Filter, path, cookie string) *sim.Resp {
 	h := map[string]string{"x-tenant": f.name}
+	if w.oneChain {
+		h["x-tenant"] = "all"
+	}
 	if cookie != "" {
 		h["cookie"] = cookie
 	}
@@ -187,7 +201,7 @@ func (w *c18World) login(f *c18Filter, user string) string {
 
 func c18Prop(c *sim.Case) {
 	n := 2 + sim.Pick(c, "nfilters", 2)
-	storeMode := sim.PickStr(c, "stores", "memory", "redis", "mixed", "redis-dbs")
+	storeMode := sim.PickStr(c, "stores", "memory", "redis", "mixed", "redis-dbs", "mixed-redis-first")
 	var timeouts [][2]int
 	for i := 0; i < n; i++ {
 		// this part does not wait: generous limits, so that a slow machine cannot expire a session mid-history
@@ -340,7 +354,7 @@ func c18Prop(c *sim.Case) {
 // c18Timeouts: each filter's own (absolute, idle) timeouts govern the sessions created through it (real time).
 func c18Timeouts(c *sim.Case) {
 	n := 2 + sim.Pick(c, "nfilters", 2)
-	storeMode := sim.PickStr(c, "stores", "memory", "redis", "mixed")
+	storeMode := sim.PickStr(c, "stores", "memory", "redis", "mixed", "mixed-redis-first")
 	var timeouts [][2]int
 	for i := 0; i < n; i++ {
 		a, d := sim.Pick(c, "abs", 4), sim.Pick(c, "idle", 4)
